@@ -155,6 +155,10 @@ def k2_queries(num, tier, only=None):
                         q = plan.k2_query(cont, op, n, num, ts, timeout=cfg['k2_timeout'], extra={'KF_TTL0': 1}, tag='_ttl0')
                         q.meta['kf_probe'] = 'ut-ttl0'
                         qs.append(q)
+        # C16: a dead entry that is neither the coldest nor the second-coldest of the recency order needs three residents
+        if num == 16 and cont in ('tlru', 'utlru') and tier == 'quick':
+            for p in (16, 99):
+                qs.append(plan.k2_query(cont, 'insert', 3, p, 'yes', timeout=900))
         # C14: the aging arithmetic with ratios other than 1/2 (0.25 and 0.75 are exact in float, and 1 - 1/2 == 1/2 hides
         # e.g. a complemented ratio): the dynamically_age step at capacity 2 (the eviction path ages through the same
         # private routine); the thorough tier repeats the evicting insert as well
@@ -173,9 +177,12 @@ def k2_queries(num, tier, only=None):
         # the UPDATE path of insert (allow::update) one capacity higher for the three containers whose full insert step gets no
         # verdict there: re-filing an updated entry among two others (ties, an entry shielded behind a re-filed one) needs
         # three residents
-        if cont in ('lfuda', 'utmap', 'utset'):
+        if cont not in LIGHT and (tier == 'quick' or cont in ('lfuda', 'utmap', 'utset')):
             for p in (0, 99):
                 qs.append(plan.k2_query(cont, 'insert', 3, p, 'yes', timeout=cfg['k2_timeout'], extra={'ASSUME_UPDATE': 1}, tag='_upd'))
+        if cont == 'lfu' and tier == 'quick':  # the full insert step of lfu is affordable at three residents (invariant + witness)
+            for p in (0, 99):
+                qs.append(plan.k2_query(cont, 'insert', 3, p, 'yes', timeout=cfg['k2_timeout']))
     return qs
 
 
